@@ -4,6 +4,7 @@ CONSTANTS
   RenderSetsType = FALSE
   BodilessByLine = FALSE
   ForgetCloseOnFault = FALSE
+  StaleLengthOnRenderFault = FALSE
   Tier = "full"
   Ifaces = {"wsgi", "wsgifw", "asgi"}
   Codes = {200, 204, 304, 100, 101, 404, 299}
